@@ -485,6 +485,21 @@ int FuncEmitter::node(const Stmt *S0) {
       }
       if (DR->refersToEnclosingVariableOrCapture()) O["captured"] = true;
       tryConst(O, DR);
+      if (auto *V = dyn_cast<VarDecl>(D)) {
+        // constexpr / const integral variables with a constant initialiser (WRITE_LOCKED, MAX_..., RLOCK)
+        QualType T = V->getType();
+        const VarDecl *Def = nullptr;
+        if (!T.isNull() && !T->isDependentType() && T.isConstQualified() && T->isIntegralOrEnumerationType() &&
+            !T.isVolatileQualified() && V->getAnyInitializer(Def) && Def && Def->getInit() &&
+            !Def->getInit()->isValueDependent() && !Def->getInit()->isTypeDependent() &&
+            Def->isUsableInConstantExpressions(Ctx)) {
+          if (const APValue *AV = Def->evaluateValue())
+            if (AV->isInt()) {
+              llvm::APSInt I = AV->getInt();
+              if (I.isSignedIntN(63) || (I.isUnsigned() && I.isIntN(63))) O["cv"] = I.getExtValue();
+            }
+        }
+      }
     }
   } else if (isa<CXXThisExpr>(S)) {
     O["k"] = "this";
